@@ -1,9 +1,10 @@
 """C09: check configuration (PROPS_ENTRY, consumed by ./check and gen_manifest.py) and the list of lemmas that make up
 the property file (SPEC_ENTRY, consumed by tools/mkprops.py)."""
-PROPS_ENTRY = {'models': ['Model/Layout.v', 'Model/Teardown.v'],
+PROPS_ENTRY = {'models': ['Model/Layout.v', 'Model/Teardown.v', 'Model/Gpu.v', 'Model/GpuSpec.v'],
  'design_ref': 'DESIGN.md 3 C09',
  'exhaustive': False,
- 'assumptions': ['Drop order is TRANSCRIBED, not derived from rustc: the interpreter of Model/Teardown.v implements the language rules once (early return: live locals in '
+ 'assumptions': ['the check also runs the GPU lives of C20 (scenario c20gpu-*, monitor 2023: backing memory attached to a resource is not released) and their correspondence lines',
+                 'Drop order is TRANSCRIBED, not derived from rustc: the interpreter of Model/Teardown.v implements the language rules once (early return: live locals in '
                  'reverse declaration order, then the by-value parameter; struct: Drop::drop, then fields in declaration order; moved values are not dropped; assignment '
                  'drops the old field value) and each driver contributes its list of constructor steps, its field order and the queue_unset calls of its Drop impl as '
                  'data. The tie to the code is the exhaustive fault-injection correspondence (every observed event predicted, in order).',
